@@ -679,7 +679,10 @@ def _mk_gather(st, x, idx, depth=0):
             if drop:
                 rest = mk_concat(parts[drop:])
                 if idx[0] == "shift":
-                    return mk_gather(st, rest, mk_shift(idx[1] - pre, idx[2]), depth + 1)
+                    d = idx[1] - pre
+                    if st.eq(d, 0):
+                        d = Poly.const(0)
+                    return mk_gather(st, rest, mk_shift(d, idx[2]), depth + 1)
                 return mk_gather(st, rest, mk_arange(idx[1] - pre, idx[2] - pre), depth + 1)
     if x[0] == "shift":
         # gather(c + y, idx) = c + gather(y, idx)
